@@ -402,6 +402,9 @@ func init() {
 	add("C09", "ERR-NILRET")
 	add("C12", "ERR-NILRET")
 	add("C19", "ERR-NILRET")
+	registerRule(&RuleDef{ID: "DEFER-ARM", Min: 1, Doc: "every monitor request is sent with the deferral of notifications armed", Run: ruleDEFERARM})
+	add("C01", "DEFER-ARM")
+	add("C16", "DEFER-ARM")
 	add("C01", "ERR-LOOP")
 	add("C03", "X1", "MAX-ONE")
 	add("C04", "MAX-ONE")
